@@ -480,6 +480,14 @@ def _list_forms(run: Run, prog: Program, model: Model, tier: str) -> None:
                         # loop-variable indices of the body form are all `window index`
                         if "i0@" in start or "i1@" in start or start.startswith("i@"):
                             start = "<window index>"
+                        # `T if T > 0 else 0` is max(0, T): on the path where 0 < T holds the start T is the clamped one,
+                        # on the other path the start 0 is
+                        for fk, t_, b_ in p.facts[:e.nfacts]:
+                            if isinstance(t_, Term) and t_.op == "lt" and len(t_.args) == 2 and isinstance(t_.args[0], Const) \
+                                    and t_.args[0].value == 0 and isinstance(t_.args[1], V):
+                                tk_ = t_.args[1].key()
+                                if (b_ and start == tk_) or (not b_ and start == "0" and tk_.startswith("bin(-, len(value)")):
+                                    start = f"max(0, {tk_})"
                         got.add((tuple(sl) if sl is not None else ("?",), start))
             forms[vis] = got
         construct = f"visit_list elements={name}"
